@@ -6,3 +6,6 @@ package migrate
 
 // verifPoint is a no-op unless built with -tags verif.
 func verifPoint(string) {}
+
+// verifNow reports no override unless built with -tags verif.
+func verifNow() (string, bool) { return "", false }
